@@ -5,6 +5,7 @@ import (
 	"errors"
 	"fmt"
 	"os"
+	"strings"
 
 	"github.com/safing/portbase/database"
 	"github.com/safing/portbase/database/iterator"
@@ -182,6 +183,7 @@ func runFstree(c *cctx, viaDB bool) {
 			}
 		} else if !ni.Esc && canCreate && !r2.OK {
 			c.b.Count("inside_unclean_put_refused."+comp, 1)
+			c.b.Seen("inside_unclean_put_refused_why", clip(strings.ReplaceAll(r2.Err, c.sb.S, "S"), 60))
 		}
 		// leave the root as it was for the next name
 		if !ni.Esc && r2.OK && !r5.OK {
